@@ -124,3 +124,52 @@ Print Assumptions C12_from_string_spec.
 Theorem C12_from_bytes_spec : forall data b, from_bytes_m data = Ok b <-> read_bytes_sched data [] = Ok (ROk b).
 Proof. exact from_bytes_spec. Qed.
 Print Assumptions C12_from_bytes_spec.
+
+(* ======================================================================================== *)
+(* zero-length chunks (excluded from `clean`): `EChunk 0` makes the scripted call return Ok(0) — end of input for a
+   reader, WriteZero for a writer.  p = chunk_total pre is what the clean prefix delivers / accepts; NO hypothesis
+   relates p to the length of the data on the reader side (when the prefix offers more than the data holds the real
+   end of input comes first, and `firstn p data` is all of the data) *)
+From BddVerif Require Import Proofs.Gaps3Serial.
+
+(* readers: exactly as if the stream had ended after p bytes.  Binary: Ok of the complete 10-byte records among the
+   first p bytes (a trailing partial record is dropped, as at a real end of input); text: whatever read_text answers
+   on the first p bytes (Ok of the diagram, or Err for a text cut inside a record / inside a UTF-8 sequence) *)
+Theorem C12_reader_zero_chunk_is_eof : forall data pre post, clean pre ->
+  read_bytes_sched data (pre ++ EChunk 0 :: post) = Ok (ROk (records (firstn (N.to_nat (chunk_total pre)) data))) /\
+  read_bytes_sched data (pre ++ EChunk 0 :: post) = read_bytes (firstn (N.to_nat (chunk_total pre)) data) /\
+  read_text_sched data (pre ++ EChunk 0 :: post) = read_text (firstn (N.to_nat (chunk_total pre)) data).
+Proof.
+  intros data pre post C. split; [exact (read_bytes_zero_chunk data pre post C)|].
+  split; [exact (read_bytes_zero_chunk_as_eof data pre post C)|exact (read_text_zero_chunk data pre post C)].
+Qed.
+Print Assumptions C12_reader_zero_chunk_is_eof.
+
+(* writers: a zero-length write while bytes remain is Err(WriteZero) (false), with exactly the clean prefix accepted;
+   when the clean prefix already accepts the whole stream the zero-length chunk (or anything else) is never reached *)
+Theorem C12_writer_zero_chunk_is_error : forall b pre post, clean pre ->
+  (chunk_total pre < len (write_bytes b) ->
+     write_bytes_sched b (pre ++ EChunk 0 :: post) = (false, firstn (N.to_nat (chunk_total pre)) (write_bytes b))) /\
+  (chunk_total pre < len (write_text b) ->
+     write_text_sched b (pre ++ EChunk 0 :: post) = (false, firstn (N.to_nat (chunk_total pre)) (write_text b))) /\
+  (len (write_bytes b) <= chunk_total pre -> write_bytes_sched b (pre ++ EChunk 0 :: post) = (true, write_bytes b)) /\
+  (len (write_text b) <= chunk_total pre -> write_text_sched b (pre ++ EChunk 0 :: post) = (true, write_text b)).
+Proof.
+  intros b pre post C. split; [exact (write_bytes_sched_zero b pre post C)|].
+  split; [exact (write_text_sched_zero b pre post C)|].
+  split; [exact (write_bytes_sched_zero_unreached b pre _ C)|exact (write_text_sched_zero_unreached b pre _ C)].
+Qed.
+Print Assumptions C12_writer_zero_chunk_is_error.
+
+Example C12_ex_zero_chunk :
+  let b := [mkNode 65535 0 0; mkNode 65535 1 1; mkNode 300 0 1; mkNode 7 70000 2] in
+  read_bytes_sched (write_bytes b) [EChunk 3; EIntr; EChunk 10; EChunk 0; EChunk 50] = Ok (ROk (firstn 1 b)) /\
+  read_bytes_sched (write_bytes b) [EChunk 20; EChunk 0] = Ok (ROk (firstn 2 b)) /\
+  read_text_sched (write_text b) [EChunk 9; EChunk 0; EChunk 100] = Ok RErr /\
+  read_text_sched (write_text b) [EChunk 4; EIntr; EChunk 7; EChunk 0; EChunk 100] = Ok (ROk (firstn 1 b)) /\
+  read_text_sched (write_text b) [EChunk 1000; EChunk 0] = Ok (ROk b) /\
+  write_bytes_sched b [EChunk 3; EIntr; EChunk 5; EChunk 0; EChunk 100] = (false, firstn 8 (write_bytes b)) /\
+  write_text_sched b [EChunk 8; EChunk 0] = (false, firstn 8 (write_text b)) /\
+  write_text_sched b [EChunk 1000; EChunk 0] = (true, write_text b).
+Proof. exact zero_chunk_examples. Qed.
+Print Assumptions C12_ex_zero_chunk.
